@@ -34,6 +34,7 @@ func init() {
 			}
 			bs = append(bs, Batch{Name: "failures", Args: map[string]string{"mode": "failures", "procs": "4"}, Race: true, Procs: 4})
 			bs = append(bs, Batch{Name: "tcp-p4", Args: map[string]string{"procs": "4", "mode": "tcp"}, Race: true, Procs: 4, Weight: 2})
+			bs = append(bs, Batch{Name: "sup-p4", Args: map[string]string{"procs": "4", "mode": "sup"}, Race: true, Procs: 4, Weight: 2})
 			for _, p := range []int{2, 16} {
 				bs = append(bs, Batch{Name: fmt.Sprintf("poll-p%d", p), Args: map[string]string{"mode": "poll", "procs": fmt.Sprint(p)}, Race: p == 2, Procs: p, Weight: min(p, 4)})
 			}
@@ -167,6 +168,9 @@ func runC06(c *Ctx) {
 		return
 	case "tcp":
 		runC07TCP(c, "C06")
+		return
+	case "sup":
+		runSupervised(c, "C06")
 		return
 	}
 	grid := c06Grid()
